@@ -169,7 +169,7 @@ F1Case(fam, k, d) ==
         tm   == IF Hole1Region(j) = "m" \/ (SkelUsesK2(j) /\ Hole2Region(j) = "m") THEN FailTail(cons, "m") ELSE << >>
         ts   == IF Hole1Region(j) = "s" \/ (SkelUsesK2(j) /\ Hole2Region(j) = "s") THEN FailTail(cons, "s") ELSE << >>
         app  == d[8] = 1 \/ (cmp.c = 4 /\ ref.f \in SeqToSet(AddrFieldsG))   \* CreatorAddress needs application mode
-        ver  == Max({MinVersion(j), 3 + d[9]})
+        ver  == MaxOf({MinVersion(j), 3 + d[9]})
         body == (IF app THEN AppPreamble ELSE << >>) \o Skel(j, K1, K2, tm, ts)
     IN  [fam |-> fam, k |-> k,
          desc |-> [ref |-> ref, op |-> cmp.op, side |-> cmp.side, c |-> cmp.c, neg |-> cmp.neg,
@@ -229,7 +229,7 @@ F2Case(fam, k, d) ==
         app  == d[12] = 1
                 \/ (cmpA.c = 4 /\ pr[1].f \in SeqToSet(AddrFieldsG))
                 \/ (cmpB.c = 4 /\ pr[2].f \in SeqToSet(AddrFieldsG))
-        ver  == Max({MinVersion(j), 4})
+        ver  == MaxOf({MinVersion(j), 4})
         body == (IF app THEN AppPreamble ELSE << >>) \o Skel(j, K1, K2, tm, ts)
     IN  [fam |-> fam, k |-> k,
          desc |-> [pair |-> 1 + d[1], a |-> [op |-> cmpA.op, side |-> cmpA.side, c |-> cmpA.c],
@@ -279,7 +279,7 @@ F3Case(fam, k, d) ==
         tm   == IF r1 = "m" \/ (SkelUsesK2(j) /\ r2 = "m") THEN FailTail(cons, "m") ELSE << >>
         ts   == IF r1 = "s" \/ (SkelUsesK2(j) /\ r2 = "s") THEN FailTail(cons, "s") ELSE << >>
         app  == d[11] = 1 \/ (cmp.c = 4 /\ f \in SeqToSet(AddrFieldsG))
-        ver  == Max({MinVersion(j), 4})
+        ver  == MaxOf({MinVersion(j), 4})
         body == (IF app THEN AppPreamble ELSE << >>) \o Skel(j, K1, K2, tm, ts)
     IN  [fam |-> fam, k |-> k,
          desc |-> [ref |-> ref, op |-> cmp.op, side |-> cmp.side, c |-> cmp.c, guard |-> g, second |-> d[10],
